@@ -64,3 +64,39 @@ Definition run_epoch (s : efull) (chunk : Z) : option efull :=
 
 (* number of transitions the chunk loop performs for one epoch *)
 Definition transitions (d chunk : Z) : Z := (d / chunk) * chunk.
+
+(* ---- one EngineBuilder used for a whole script of calls ----
+   The only epoch-related state of the builder is self._epochs, the manager built by the last setter
+   that did not raise (`self._epochs = EpochManager(epochs)`: when stan_epochs or the manager raises,
+   the assignment does not happen and the previous schedule stays).  A fresh builder has no schedule
+   (build() raises).  build() recomputes the chunk length from the schedule held at that moment:
+   it is a function of the current schedule only, not of earlier builds or schedules. *)
+Inductive bop :=
+  | BSetEpochs (l : list econf)
+  | BSetDuration (w p t thp thw : Z)
+  | BBuild.
+Inductive bevent :=
+  | ESet (accepted : bool)
+  | EBuilt (l : list econf) (chunk : Z)     (* what the Engine constructor receives *)
+  | EBuildError.
+Definition bstate := option (list econf).
+
+Definition set_result (st : bstate) (r : bres) : bstate * bevent :=
+  match r with
+  | BOk l _ => (Some l, ESet true)
+  | _ => (st, ESet false)
+  end.
+Definition bstep (st : bstate) (o : bop) : bstate * bevent :=
+  match o with
+  | BSetEpochs l => set_result st (builder_set_epochs l)
+  | BSetDuration w p t thp thw => set_result st (builder_set_duration w p t thp thw)
+  | BBuild => match st with
+              | Some l => (st, EBuilt l (chunk_len l))
+              | None => (st, EBuildError)
+              end
+  end.
+Fixpoint brun (st : bstate) (ops : list bop) : list bevent :=
+  match ops with
+  | [] => []
+  | o :: r => let '(st', e) := bstep st o in e :: brun st' r
+  end.
